@@ -124,6 +124,16 @@ Theorem c03_engine_rejects : forall gs,
 Proof. intro gs. split; [apply engine_rejects_bad|apply engine_rejects_dup]. Qed.
 Print Assumptions c03_engine_rejects.
 
+(* ---- histories interleaving registrations and requests ---- *)
+(* for any interleaving, the answer to a request is route_req on build (the registrations attempted
+   so far) - the table a router registered up-front would have - and a registration is judged by
+   the Spec's `reject` on the routes registered so far; nothing else of the past matters *)
+Theorem c03_history_independent : forall ops,
+  run_ops [] ops = hist_spec [] ops /\
+  (forall pre m p id, snd (handle (build pre) m p id) = reject (registered pre) m p).
+Proof. intro ops. split; [apply history_independent|apply hist_verdict]. Qed.
+Print Assumptions c03_history_independent.
+
 (* ---- non-vacuity ---- *)
 Definition b (s : string) : list N := map (fun a => N.of_nat (Ascii.nat_of_ascii a)) (list_ascii_of_string s).
 Definition ex_regs : list reg :=
@@ -172,3 +182,14 @@ Example c03_engine_examples :
   snd (engine_register [(Some [], [("GET", b "", 6)]%string%nat)]) = Some EPath /\
   snd (engine_register [g2; (Some (b "/"), [("GET", b "c/.", 7)]%string%nat)]) = Some EDup.
 Proof. vm_compute. repeat split; reflexivity. Qed.
+
+(* a param route answers, a literal route for the same path is registered afterwards and wins from
+   then on; a duplicate after serving is rejected; percent signs etc. are ordinary bytes *)
+Example c03_history_example :
+  run_ops [] [OReg "GET" (b "/a/:x") 0; OReq "GET" (b "/a/%41"); OReq "POST" (b "/a/%41");
+              OReg "GET" (b "/a/%41") 3; OReq "GET" (b "/a/%41"); OReg "GET" (b "/a/./:x") 5;
+              OReg "POST" (b "/a/:y") 6; OReq "POST" (b "/a/a%2Fb")]%string%nat =
+  [HErr None; HOut (Hit [(0, [(b "x", b "%41")])]); HOut (NotAllowed ["GET"]%string);
+   HErr None; HOut (Hit [(3, [])]); HErr (Some EDup);
+   HErr None; HOut (Hit [(6, [(b "y", b "a%2Fb")])])]%nat.
+Proof. vm_compute. reflexivity. Qed.
